@@ -567,6 +567,10 @@ def _packet_reader(ctx, R, roles, T):
                     okz = okz or True
             # verify the variable compared is the header's length field
             okz = okz and _zero_guard_is_length(ctx, T, f, rn, is_unpack_proj)
+            if not okz and zero_edges:
+                # every path to this return takes an edge on which the header's data_length is known to be zero
+                r0 = g.reach([g.entry], exc=True, include_start=True, edge_filter=lambda s, d, l: not any(s is tn and l == lab for tn, lab in zero_edges))
+                okz = rn not in r0
             R.check(okz, "PKT", sub + "|empty", "empty payload returned only when the header announces length 0",
                     "an empty payload is returned although the header may announce data", f.loc(rn.ast))
         else:
